@@ -170,7 +170,7 @@ def run(args):
     # every carry-through construct at once, and an input that is itself named *_cm.css
     allc = '\n'.join(H.CARRY) + '\n.x { color: #888; background-color: #fff }\n@media print { .y { color: #8a8a8a } /* c2 */ }\n'
     sheets += [('all_cm.css', allc, {'carry-through'}), ('carry.css', allc, {'carry-through'})]
-    jobs = [(n, c, f, H.SETTINGS[i % len(H.SETTINGS)], i % 5 == 4) for i, (n, c, f) in enumerate(sheets)]
+    jobs = [(n, c, f, H.SETTINGS[i % len(H.SETTINGS)], i % 5 == 4) for i, (n, c, f) in enumerate(sheets)] + [(n, c, f, o, k % 5 == 4) for k, (n, c, f, o) in enumerate(H.core_jobs())]
     t0 = time.time()
     with mp.get_context('fork').Pool(16) as pool:
         out = pool.map(case, jobs, chunksize=2)
